@@ -279,6 +279,9 @@ fn judge_inner(
                     continue;
                 }
                 let same = match (&spec.kind, &st.kind) {
+                    // another name of an input file: whether it follows the replacement or keeps
+                    // the old contents is not specified; it must still be a regular file
+                    (Kind::Hardlink(_), Kind::File) => true,
                     (Kind::File, Kind::File) => spec.bytes == st.bytes && spec.mode == st.mode,
                     (Kind::Dir, Kind::Dir) => true,
                     (a, b) => a == b,
@@ -344,7 +347,7 @@ fn judge_inner(
             continue;
         }
         for p in [&o.path, &o.path2].into_iter().flatten() {
-            if let Some(rel) = p.strip_prefix("@ROOT/") {
+            if let Some(rel) = p.strip_prefix("/@ROOT/") {
                 if !input_dirs.contains(dir_of(rel)) {
                     return v(
                         "V6",
@@ -489,10 +492,10 @@ pub fn gen_case(rng: &mut Rng) -> Case {
             0 | 1 => (format!("f{i}.json"), format!("w/f{i}.json")),
             2 => (format!("./f{i}.json"), format!("w/f{i}.json")),
             3 => (format!("sub/g{i}.json"), format!("w/sub/g{i}.json")),
-            4 => (format!("@ROOT/w/a{i}.json"), format!("w/a{i}.json")),
+            4 => (format!("/@ROOT/w/a{i}.json"), format!("w/a{i}.json")),
             5 => (format!("../other/h{i}.json"), format!("other/h{i}.json")),
             6 => (format!("plain{i}"), format!("w/plain{i}")),
-            7 => (format!("@ROOT/other/b{i}.json"), format!("other/b{i}.json")),
+            7 => (format!("/@ROOT/other/b{i}.json"), format!("other/b{i}.json")),
             _ => (format!("sub/../f{i}.json"), format!("w/f{i}.json")),
         };
         let k = match rng.usize(8) {
@@ -527,6 +530,14 @@ pub fn gen_case(rng: &mut Rng) -> Case {
             files.push(FileSpec::file(format!("{d}/jaq"), "decoy named like the prefix\n", 0o644));
         }
     }
+    // a second name (hard link) for some input files, in the same or another directory
+    for (i, p) in paths.clone().iter().enumerate() {
+        if rng.chance(1, 5) {
+            let (d, n) = p.rsplit_once('/').unwrap();
+            let link = if rng.chance(1, 2) { format!("{d}/{n}.lnk") } else { format!("tmp/link{i}") };
+            files.push(FileSpec::hardlink(link, p.clone()));
+        }
+    }
     files.push(FileSpec::file("w/unrelated.txt", "leave me alone\n", 0o640));
     files.push(FileSpec::file("tmp/keep", "tmpdir content\n", 0o644));
     // dedupe by path (same path may have been drawn twice): keep the first
@@ -546,8 +557,8 @@ pub fn gen_case(rng: &mut Rng) -> Case {
     let mut opts: Vec<String> = fopts.iter().map(|s| s.to_string()).collect();
     opts.extend(rng.pick(OUT_OPTS).iter().map(|s| s.to_string()));
     let env = vec![
-        ("HOME".to_string(), "@ROOT/home".to_string()),
-        ("TMPDIR".to_string(), "@ROOT/tmp".to_string()),
+        ("HOME".to_string(), "/@ROOT/home".to_string()),
+        ("TMPDIR".to_string(), "/@ROOT/tmp".to_string()),
         ("PATH".to_string(), "/usr/bin:/bin".to_string()),
     ];
     Case {
